@@ -26,6 +26,7 @@ EXPLANATION = (
     ' Round 5: (7) TrioEventLoop takes off at most the one ExceptionGroup layer its own nursery adds; (8) PAIR: every hook MainLoop.start() registers (idle callback, input watchers, descriptor-change signal, started screen) is released by stop() on all its normal paths and _run() passes stop() on the normal and on the exceptional exit (before fix 35c16b8 an exception-terminated run() left the watchers and the idle redraw in the event loop); a `finally` around event_loop.run() must not contain return / raise / break.'
     ' Round 6: (9) MEMO: every PopUpTarget entry point calls _update_overlay() before it routes to _current_widget (a batch of events is delivered without a redraw in between); (11) start() drops the cached screen size (fix for two sessions with a resize in between); (12) the flag that suppresses the signal-key snapshot in _start() is lowered where _stop() restores the snapshot (fix 69fb61c).'
     ' Round 7: (13) event-name words are looked for by containment (is_mouse_event: every mouse report reaches mouse_event()); (14) every write of Screen._stop() is followed by a flush() on every way to its end; (15) no event loop re-raises a caught exception object with a `from` clause that overwrites its __cause__ (fix 1942920).'
+    " Round-8 triage: (16) ORDER: a 'window resize' is noted before the input filter runs and the cached size is dropped on that note (fix ed5b507)."
 )
 NOT_DECIDED = "That the terminal really ends up in its initial modes (needs a pty), delivery order across reads, redraw-before-wait timing, failures inside MainLoop.start()/stop() themselves."
 ASSUMPTIONS = ["glib_loop.py cannot be imported here; its reports are informational only."]
